@@ -121,6 +121,20 @@ class VObj(V):
         return f"Obj<{self.cls}>{self.fields}"
 
 
+class VStream(V):
+    """an output buffer that is only appended to inside a loop and read after it: its content is
+    not stored; every emission is checked against the specification's step function and advances
+    the ghost pointer of the simulation (DESIGN.md 4.2)"""
+
+    def __init__(self, name, spec):
+        self.name = name
+        self.spec = spec
+        self.fresh = True
+
+    def __repr__(self):
+        return f"Stream({self.name})"
+
+
 class VSymCache(V):
     """the per-object memo of a URL that was not built in this activation: it may hold any of
     the known keys, each with the value its lazy accessor computes from the owner's parts
